@@ -199,12 +199,17 @@ pub fn gen_plain_sized(dna: &mut Dna, target: usize) -> Vec<u8> {
 fn gen_archive_like(dna: &mut Dna, target: usize) -> Vec<u8> {
     let mut out = Vec::with_capacity(target);
     let mut mix = Mix::new(dna.u64());
-    let head = if target > 44 * 1024 && dna.chance(70) {
-        mix.range(33 * 1024, target * 3 / 4)
+    let (head, blob) = if target >= 70 * 1024 && dna.chance(75) {
+        // blob big enough for whole stored blocks (a zlib block holds up to 16383 symbols),
+        // starting beyond the first 32 KiB window
+        let head = mix.range(33 * 1024, 40 * 1024);
+        let blob = mix.range(18 * 1024, (target - head - 4096).min(48 * 1024).max(18 * 1024 + 1));
+        (head, blob)
+    } else if target > 44 * 1024 && dna.chance(70) {
+        (mix.range(33 * 1024, target * 3 / 4), mix.range((target / 20).max(1), (target / 4).max(2)).min(20 * 1024))
     } else {
-        mix.range(target / 8, target / 2 + 1)
+        (mix.range(target / 8, target / 2 + 1), mix.range((target / 20).max(1), (target / 4).max(2)).min(20 * 1024))
     };
-    let blob = mix.range((target / 20).max(1), (target / 4).max(2)).min(20 * 1024);
     while out.len() < head.min(target) {
         let k = [2usize, 2, 3, 7][mix.below(4)];
         append_segment(&mut out, head.min(target), k, &mut mix);
